@@ -21,7 +21,7 @@ import kernels as ref  # noqa: E402
 META = {
     "level": "other",
     "technique": "compiler-evaluated constants and wire signatures (typed HIR) compared with an independent reference of the published format; literal/shape rules on key derivation and tail handling",
-    "claim": "Decides equality with the published MPQ format for ~50 constants, the V1–V4 header layouts on both the write and the read side (width, order, field identity), the 16-byte hash/block entry layouts, the table key names, the position-adjusted key formula, whole-word-only encryption and plain-name key derivation. Does not run a second implementation or compare zlib/bzip2 payloads. Also: every loop serialising hash/block entry fields uses the format order and widths; the key position is seek position − archive offset; lookups stop only at never-used entries (truth table over the three entry kinds); name hashes iterate over bytes. Wave 5: every difference of two different header table positions sits under a comparison of the two (table order is not assumed); in zlib::decompress no path reaches a raw-deflate decoder without the zlib decoder having been tried unless its guard rejects all 128 legal RFC 1950 headers.",
+    "claim": "Decides equality with the published MPQ format for ~50 constants, the V1–V4 header layouts on both the write and the read side (width, order, field identity), the 16-byte hash/block entry layouts, the table key names, the position-adjusted key formula, whole-word-only encryption and plain-name key derivation. Does not run a second implementation or compare zlib/bzip2 payloads. Also: every loop serialising hash/block entry fields uses the format order and widths; the key position is seek position − archive offset; lookups stop only at never-used entries (truth table over the three entry kinds); name hashes iterate over bytes. Wave 5: every difference of two different header table positions sits under a comparison of the two (table order is not assumed); in zlib::decompress no path reaches a raw-deflate decoder without the zlib decoder having been tried unless its guard rejects all 128 legal RFC 1950 headers. Wave 6: readers decide \"sector is compressed\" against that sector's own decompression target; the file key is derived after the last write to the flags it reads.",
     "note": "Reference = reference/kernels.py, written from the public format description (zezula.net / StormLib headers), not from the repo.",
     "assumptions": ["the published format subset: V1/V2 headers, classic tables, none/zlib/bzip2, plain and encrypted files"],
     "explanation": "wow_mpq constants (magics, FLAG_*, method bytes, hash types, empty markers), builder::write_header, header::MpqHeader::read_with_limits, HashEntry/BlockEntry readers and writers, hash_string(\"(hash table)\"/\"(block table)\", FILE_KEY) sites, calculate_file_key and the three reader derivations, the byte-level encrypt/decrypt wrappers.",
@@ -472,84 +472,6 @@ def run(ctx):
     from .c01 import decision_bound_rule, key_from_final_flags_rule
     decision_bound_rule(ctx, mpq, "C02")
     key_from_final_flags_rule(ctx, mpq, "C02")
-
-    # HET/BET (V3/V4): what the builder writes must be what the reader's own HET/BET lookup accepts — the classic tables the builder
-    # also writes must not be what keeps lookups working.
-    #  (a) the name hash stored per file in BET comes from the function BetTable::verify_file_hash recomputes;
-    #  (b) the free-slot marker of the HET hash table is one value on the write and the read side, outside the range of name hashes
-    #      (0x80..=0xFF: the top bit is always set);
-    #  (c) compress() already returns the method byte in front of the data (or the data unchanged): nobody prepends a second one.
-    R_hb = ctx.rule("C02.het-bet-writer-matches-reader", "BET hashes are computed with the verifier's hash function; the HET free-slot marker is the same constant < 0x80 in builder, in-place modifier and reader; no method byte is pushed in front of compress()'s result", floor=5)
-    hashfn = lambda fn_: sorted({(c_.get("fn") or "").split("::")[-1] for c_ in hirq.calls(fn_.hir["body"]) if re.search(r"crypto::(\w+::)?(het_hash|jenkins_hash|jenkins_hashlittle2|jenkins_one_at_a_time|hash_string)$", c_.get("fn") or "")})
-    vf = fns.get(M + "tables::bet::BetTable::verify_file_hash")
-    bw = [f for f in mpq.fn_list if f.hir and f.kind != "Closure" and re.search(r"::(builder|modification)::", f.path) and any(x.get("k") == "mcall" and x["m"] == "push" and "bet_hashes" in hirq.render(x.get("recv")) for x in hirq.walk(f.hir["body"]))]
-    if vf is None or not bw:
-        ctx.bad(R_hb, "bet-hash|missing", "-", "verify_file_hash or the BET hash writer not found", "anchor gone")
-    else:
-        ctx.saw_fn(vf)
-        alias = {"het_hash": "jenkins_hashlittle2"}
-        want = {alias.get(h_, h_) for h_ in hashfn(vf)}
-        for f in bw:
-            ctx.saw_fn(f)
-            # the call whose result is pushed
-            pushed = set()
-            for x in hirq.walk(f.hir["body"]):
-                if x.get("k") == "mcall" and x["m"] == "push" and "bet_hashes" in hirq.render(x.get("recv")) and x.get("args"):
-                    for v in hirq.value_leaves(f.hir["body"], x["args"][0]):
-                        if v is not None:
-                            src = v["e"] if v.get("k") == "tupidx" else v
-                            for c_ in hirq.walk(src):
-                                if c_.get("k") == "call" and re.search(r"crypto::", c_.get("fn") or ""):
-                                    pushed.add(alias.get((c_.get("fn") or "").split("::")[-1], (c_.get("fn") or "").split("::")[-1]))
-            if pushed and pushed <= want:
-                ctx.ok(R_hb, {"bet_hash_writer": f.path.split("::")[-1], "hash": sorted(pushed)})
-            elif pushed:
-                ctx.bad(R_hb, "%s|bet-hash-function" % f.path.split("::")[-1], f.where, "BET hashes are computed with %s; BetTable::verify_file_hash recomputes them with %s" % (sorted(pushed), sorted(want)),
-                        "no file of an archive written this way resolves through HET/BET: lookups only work through the silent fallback to the classic tables, and any reader without that fallback finds nothing")
-            else:
-                ctx.ok(R_hb, {"bet_hash_writer": f.path.split("::")[-1], "note": "placeholder hashes (no name hash pushed)"})
-    markers = {}
-    for f in mpq.fn_list:
-        if not f.hir or f.kind == "Closure" or "::tests::" in f.path:
-            continue
-        for l in hirq.find(f.hir["body"], "let"):
-            if l["pat"].get("k") == "bind" and re.search(r"het_hash_table", l["pat"]["name"]) and l.get("init") is not None:
-                r_ = hirq.render(l["init"])
-                m_ = re.search(r"vec!\[(0x[0-9A-Fa-f]+|\d+)(?:u8)?; |from_elem\((0x[0-9A-Fa-f]+|\d+)", r_)
-                lit = next((hirq.lit_int(y) for y in hirq.walk(l["init"]) if y.get("k") == "lit" and "int" in y["v"]), None)
-                if lit is not None:
-                    markers[("init", f.path.split("::")[-1], l.get("ln"))] = lit
-        for n_ in hirq.find(f.hir["body"], "if"):
-            c_ = hirq.strip(n_["c"])
-            if c_.get("k") == "bin" and c_["op"] == "==" and re.search(r"het_hash_table\[|stored_hash", hirq.render(c_)) and hirq.lit_int(hirq.strip(c_["r"])) is not None:
-                if re.search(r"stored_hash|het_hash_table\[", hirq.render(c_["l"])) and not re.search(r"name_hash", hirq.render(c_["r"])):
-                    markers[("test", f.path.split("::")[-1], n_.get("ln"))] = hirq.lit_int(hirq.strip(c_["r"]))
-    vals = set(markers.values())
-    if not (any(k_[0] == "init" for k_ in markers) and any(k_[0] == "test" and k_[1].startswith("find_file") for k_ in markers) and any(k_[0] == "test" and not k_[1].startswith("find_file") for k_ in markers)):
-        ctx.bad(R_hb, "het-marker|sites", "-", "free-slot marker sites not recognised on all three sides — initial fill, writer's probe, reader's probe (%s)" % sorted(markers), "shape changed")
-    elif len(vals) == 1 and next(iter(vals)) < 0x80:
-        ctx.ok(R_hb, {"het_free_slot_marker": "0x%02X" % next(iter(vals)), "sites": len(markers)})
-    else:
-        ctx.bad(R_hb, "het-marker|values", "-", "HET free-slot marker sites use %s" % {"%s:%s" % (k_[1], k_[2]): "0x%02X" % v_ for k_, v_ in sorted(markers.items())},
-                "a marker inside 0x80..=0xFF is also a legal 8-bit name hash: the builder overwrites the slots of names hashing to it and the reader stops probing at them (about 2 names in 256 become unreachable through HET); differing markers make one side's free slots look occupied to the other")
-    for f in mpq.fn_list:
-        if not f.hir or f.kind == "Closure" or "::tests::" in f.path or "::compression::" in f.path:
-            continue
-        comp = [l["pat"]["name"] for l in hirq.find(f.hir["body"], "let") if l["pat"].get("k") == "bind" and l.get("init") is not None and any((c_.get("fn") or "").endswith("compression::compress::compress") or (c_.get("fn") or "").endswith("compression::compress") for c_ in hirq.calls(l["init"]))]
-        if not comp:
-            continue
-        ctx.saw_fn(f)
-        dbl = None
-        for x in hirq.walk(f.hir["body"]):
-            if x.get("k") == "mcall" and x["m"] in ("extend_from_slice", "extend", "append") and x.get("args") and any(re.search(r"\b%s\b" % re.escape(nm), hirq.render(x["args"][0])) for nm in comp):
-                tgt = hirq.render(x["recv"])
-                if any(y.get("k") == "mcall" and y["m"] == "push" and hirq.render(y["recv"]) == tgt and re.search(r"compression|method", hirq.render(y["args"][0]) if y.get("args") else "") for y in hirq.walk(f.hir["body"])):
-                    dbl = x
-        if dbl is not None:
-            ctx.bad(R_hb, "%s|double-method-byte" % f.path.split("::")[-1], "%s:%d" % (f.file, dbl.get("ln") or 0), "a compression method byte is pushed in front of `%s`, which compress() already returned with its method byte (or unchanged when it did not shrink)" % hirq.render(dbl["args"][0])[:40],
-                    "the reader takes the first byte as the method and the second as data: the table (or block) fails to decompress — with table compression on, HET and BET cannot be loaded")
-        else:
-            ctx.ok(R_hb, {"fn": f.path.split("::")[-1], "compress_result": "used as returned"})
 
     # names are hashed byte-wise (interoperability of non-ASCII names); the kernels themselves are decided under C04
     from .c04 import name_hash_iterates_bytes
